@@ -237,6 +237,11 @@ impl AsyncWrite for UtpStreamWriteHalf {
 
         g.writer_shutdown = true;
         update_optional_waker(&mut g.writer_waker, cx);
+        // The dispatcher must notice the request to send the FIN; it only polls on wake-ups.
+        if let Some(w) = g.dispatcher_waker.take() {
+            drop(g);
+            w.wake()
+        }
         Poll::Pending
     }
 }
